@@ -354,6 +354,20 @@ func Run(p *Plan) int {
 		modelInfo = append(modelInfo, info)
 		logf("model %s/%s: %d generated, %d distinct, %.1fs", m.TLC.Module, m.TLC.Cfg, r.Generated, r.Distinct, r.Wall.Seconds())
 	}
+	// model runs a plan made itself while it was built (the states are its cases)
+	if ms, ok := p.ExtraCoverage["models"].([]any); ok {
+		for _, x := range ms {
+			if mi, ok := x.(map[string]any); ok {
+				if d, ok := mi["distinct"].(int64); ok {
+					states += d
+				}
+				if g, ok := mi["generated"].(int64); ok {
+					transitions += g
+				}
+				modelInfo = append(modelInfo, mi)
+			}
+		}
+	}
 	cov["models"] = modelInfo
 	cov["states"] = states
 	cov["transitions"] = transitions
@@ -506,16 +520,19 @@ func Run(p *Plan) int {
 			}
 			// schedule-dependent events (ReproTries > 1): try the cases not yet reproduced again
 			var left []Case
-			for _, c := range rcases {
-				done := false
+			if try+1 < tries {
+				reproduced := map[string]bool{}
 				for _, m := range unknown {
-					mc, _ := m.Rec["case"].(Case)
-					if mc != nil && caseKey(mc) == caseKey(c) && repro[caseKey(c)+"|"+m.Class] {
-						done = true
+					if mc, _ := m.Rec["case"].(Case); mc != nil {
+						if k := caseKey(mc); repro[k+"|"+m.Class] {
+							reproduced[k] = true
+						}
 					}
 				}
-				if !done {
-					left = append(left, c)
+				for _, c := range rcases {
+					if !reproduced[caseKey(c)] {
+						left = append(left, c)
+					}
 				}
 			}
 			rcases = left
@@ -573,7 +590,9 @@ func Run(p *Plan) int {
 		cov["behaviour_mode"] = map[string]any{"generated": behaviourRes.Generated, "distinct": behaviourRes.Distinct, "depth": behaviourRes.Depth}
 	}
 	for k, v := range p.ExtraCoverage {
-		cov[k] = v
+		if k != "models" {
+			cov[k] = v
+		}
 	}
 	if p.Histogram != nil {
 		h := map[string]int{}
